@@ -39,7 +39,7 @@ TRUSTED = ['harness/corr/c16.py extractor + correspondence',
            'numpy dot / mean / linalg.norm / concatenate / ravel on 3-vectors and 3x3 matrices as modelled (Mat3.mulVec, meanVec, Vec3.norm, list append)',
            'copy.copy(pose) = new object sharing both attribute references; ndarray * float allocates a new array (heap model)']
 ASSUMPTIONS = ['NOT PROVED (validated by sampling only): scipy.optimize.least_squares reaches zero residual from the zero start within max_nfev=10 '
-               'for every misalignment < 30 deg / 3 m; the unchanged code misses this in ~0.3 % of sampled in-domain cases (known finding D17)',
+               'for every misalignment < 30 deg / 3 m; the unchanged code misses this in ~0.3 % of sampled in-domain cases (known finding D161)',
                'inputs are well-shaped: points are 3-vectors, poses hold a 3x3 matrix and a 3-vector, dict keys are ints',
                'LighthouseBsVector.cart (float32 unit vector from two angles) is an input of the model (property C15 covers it)']
 RULE = ('correspondence cases = random rotation vectors (incl. 0, tiny, pi about axes, > pi), residual vectors for random parameters/sample sets '
@@ -418,8 +418,8 @@ def approx_same(a, b, tol):
             continue
         if x == y:
             continue
-        if len(x) < 15 and len(y) < 15 and x != '0' and y != '0':
-            return False
+        if len(x) < 15 and len(y) < 15:
+            return False        # two small integers (ids, counts, flags) must be identical; only bit patterns are compared as floats
         fx, fy = bits_f64(int(x)), bits_f64(int(y))
         if math.isnan(fx) or math.isnan(fy):
             if not (math.isnan(fx) and math.isnan(fy)):
@@ -787,7 +787,7 @@ def _flip_kind(line, real):
 
 # ------------------------------------------------------------------------------------------------------
 # failing-input search: the property itself, evaluated on the real code end to end (no Lean needed)
-D17_KEY = 'D17-lsq-stops-at-max-nfev'
+D161_KEY = 'D161-lsq-stops-at-max-nfev'
 CORPUS = os.path.join(VERIF, 'harness', 'corpus', 'c16')
 
 
@@ -840,7 +840,7 @@ def converges_with_more_evaluations(origin, xs, pl, tol):
 
 def check_align(ctx, sc, what, tol=1e-6, stats=None, in_domain=True):
     """all clauses of the alignment part of the property on one scenario; returns True when the exactness clause failed
-    because the optimiser stopped at its evaluation cap (D17).  Outside the 30 deg / 3 m domain convergence is not promised:
+    because the optimiser stopped at its evaluation cap (D161).  Outside the 30 deg / 3 m domain convergence is not promised:
     there the exactness clauses are required only when the optimiser's own answer satisfies the constraints up to a mirror
     flip (that is what "mirror-flipped answers are corrected" means)."""
     np, A, S, Pose, _, _ = _mods()
@@ -910,9 +910,9 @@ def check_align(ctx, sc, what, tol=1e-6, stats=None, in_domain=True):
     if capped:
         conv, nfev = converges_with_more_evaluations(origin, xs, pl, 1e-9 if not noise else etol)
         if conv:
-            if sum(1 for w in ctx.witnesses if w['key'] == D17_KEY) >= 6:
+            if sum(1 for w in ctx.witnesses if w['key'] == D161_KEY) >= 6:
                 return True      # enough replays of the known finding recorded; keep room for other witnesses
-            ctx.witness(D17_KEY, 'aligner misses the reference points: least_squares stopped at max_nfev before converging '
+            ctx.witness(D161_KEY, 'aligner misses the reference points: least_squares stopped at max_nfev before converging '
                         '(the same problem converges when allowed more evaluations)', inp, errors=bad, nfev_needed=nfev)
             return True
     worst = max(bad, key=lambda k: bad[k])
@@ -1087,9 +1087,9 @@ def search(ctx):
     ctx.count('search:align-stopped-at-max-nfev', capped)
     ctx.note('search: %d random in-domain alignments, %d missed the reference points because least_squares stopped at max_nfev (%.2f%%)'
              % (n, capped, 100.0 * capped / n))
-    # the characterised frequency of D17 is ~0.3 % of in-domain scenarios; far more than that is a different finding
+    # the characterised frequency of D161 is ~0.3 % of in-domain scenarios; far more than that is a different finding
     if capped > max(12, 0.02 * n):
-        ctx.witness('lsq-unconverged-rate', 'the aligner stops before convergence far more often than the characterised D17 rate (~0.3 %)',
+        ctx.witness('lsq-unconverged-rate', 'the aligner stops before convergence far more often than the characterised D161 rate (~0.3 %)',
                     {'scenarios': n, 'stopped_at_max_nfev': capped})
     # (1b) mirror-flipped answers: the de-flip alone on exact flipped candidates, and whole align far outside the domain
     for i in range(200 if ctx.tier == 'quick' else 2000):
